@@ -7,9 +7,9 @@ use crate::util::{Out, Rng, catch};
 use incan_syntax::ast::*;
 
 struct ExprPos { label: String, start: usize, end: usize }
-struct BlockPos { label: String, first_stmt_start: usize, in_loop: bool, returns: String }
+struct BlockPos { label: String, first_stmt_start: usize, in_loop: bool, returns: String, func: String }
 
-struct Walk { exprs: Vec<ExprPos>, blocks: Vec<BlockPos>, ret: String }
+struct Walk { exprs: Vec<ExprPos>, blocks: Vec<BlockPos>, ret: String, func: String }
 
 impl Walk {
     fn expr(&mut self, e: &Spanned<Expr>, label: &str) {
@@ -84,7 +84,7 @@ impl Walk {
         // function / method bodies of the corpus start with the two prelude bindings (imm_x, opt_v): insert after them
         let skip = if label == "Function.body" || label.ends_with(".method") { 2 } else { 0 };
         if let Some(first) = b.get(skip) {
-            self.blocks.push(BlockPos { label: label.to_string(), first_stmt_start: first.span.start, in_loop, returns: self.ret.clone() });
+            self.blocks.push(BlockPos { label: label.to_string(), first_stmt_start: first.span.start, in_loop, returns: self.ret.clone(), func: self.func.clone() });
         }
         for s in b { self.stmt(s, in_loop); }
     }
@@ -121,7 +121,7 @@ impl Walk {
     fn program(&mut self, p: &Program) {
         for d in &p.declarations {
             match &d.node {
-                Declaration::Function(f) => { self.ret = format!("{}", f.return_type.node); self.block(&f.body, "Function.body", false); }
+                Declaration::Function(f) => { self.ret = format!("{}", f.return_type.node); self.func = f.name.clone(); self.block(&f.body, "Function.body", false); self.func.clear(); }
                 Declaration::Model(m) => {
                     for fd in &m.fields { if let Some(x) = &fd.node.default { self.expr(x, "Model.fielddefault"); } }
                     self.methods(&m.methods, "Model");
@@ -155,7 +155,9 @@ fn line_bounds(src: &str, off: usize) -> (usize, usize) {
 /// Rule-violating statements (one per documented rule that can be broken by inserting a statement).
 /// `{I}` = indentation. Every base function starts with `imm_x = 0` and `opt_v = Some(1)`; Pt, Color, helper_ok,
 /// takes_int are declared by the base program.
-pub const RULES: [(&str, &str); 14] = [
+pub const RULES: [(&str, &str); 16] = [
+    ("ctor-no-arguments", "{I}zz_tmp = Pt()\n"),
+    ("ctor-wrong-field-type", "{I}zz_tmp = Pt(x=1, y=\"two\")\n"),
     ("unknown-name", "{I}zz_tmp = zz_unknown_name + 1\n"),
     ("unknown-name-in-fstring", "{I}zz_tmp = f\"v={zz_unknown_name + 1}\"\n"),
     ("pass-wrong-type", "{I}zz_tmp = takes_int(\"text\")\n"),
@@ -209,7 +211,7 @@ pub fn run(out: &mut Out, tier: &str, seed: u64, _scratch: &str) {
         }
         let toks = incan_syntax::lexer::lex(&base).expect("lex");
         let ast = incan_syntax::parser::parse(&toks).expect("parse");
-        let mut w = Walk { exprs: vec![], blocks: vec![], ret: String::new() };
+        let mut w = Walk { exprs: vec![], blocks: vec![], ret: String::new(), func: String::new() };
         w.program(&ast);
         // (a) every expression position replaced by an unknown name
         let quick_cap = if own { 400 } else { 40 };
@@ -256,7 +258,7 @@ pub fn run(out: &mut Out, tier: &str, seed: u64, _scratch: &str) {
         for (bi, b) in w.blocks.iter().enumerate() {
             let (ls, _) = line_bounds(&base, b.first_stmt_start);
             let indent = &base[ls..b.first_stmt_start];
-            if !indent.chars().all(|c| c == ' ') { continue; }
+            if !indent.chars().all(|c| c == ' ') || b.func.starts_with("twin_") { continue; }
             for (rule, snippet) in RULES.iter().chain(KNOWN_RULES.iter()) {
                 // `?` is legal inside a function returning Result: that rule is about the other functions
                 if *rule == "try-in-non-result-fn" && b.returns.starts_with("Result") { continue; }
@@ -288,7 +290,8 @@ pub fn run(out: &mut Out, tier: &str, seed: u64, _scratch: &str) {
                 for kind in ["plain", "let", "mut", "compound"] {
                     let variants = if tier == "thorough" { nests.len() } else { 2 };
                     for v in 0..variants {
-                        let mut src = String::from("def f(flag: bool, xs: List[int], o: Option[int]) -> int:\n");
+                        // an earlier function binds the same name mutably: bindings of other functions must not matter
+                        let mut src = String::from("def twin() -> int:\n    mut x = 1\n    x += 1\n    x = x + 1\n    return x\n\ndef f(flag: bool, xs: List[int], o: Option[int]) -> int:\n");
                         let mut indent = String::from("    ");
                         let mut lines: Vec<String> = Vec::new();
                         for level in 0..=d {
@@ -315,7 +318,7 @@ pub fn run(out: &mut Out, tier: &str, seed: u64, _scratch: &str) {
                         });
                         src.push_str(&lines.join("\n"));
                         src.push_str("\n    return 0\n");
-                        let line_start: usize = src.lines().take(marker + 1).map(|l| l.len() + 1).sum();
+                        let line_start: usize = src.lines().take(marker + 7).map(|l| l.len() + 1).sum();
                         let line_end = line_start + lines[marker].len();
                         let verdict = match catch(|| check(&src)) {
                             Err(m) => format!("panic {m}"),
